@@ -149,6 +149,66 @@ func (c *Ctx) ruleHashToCurveCensus(rule string) {
 			}
 		}
 	}
+	// the per-attempt work moved into a helper that is new on this tree: the same questions are asked of the
+	// bytes the helper hashes and parses, its parameters being what the loop passes - the first digest and the counter
+	helperPrefix := false
+	if first != nil && secondBytes == nil {
+		for _, site := range Calls(f) {
+			h := site.Common().StaticCallee()
+			if h == nil || h.Blocks == nil || h.Parent() != nil || !c.P.IsNewFunc(h) {
+				continue
+			}
+			argOf := func(prm ssa.Value) ssa.Value {
+				for i, hp := range h.Params {
+					if ssa.Value(hp) == prm && i < len(site.Common().Args) {
+						return site.Common().Args[i]
+					}
+				}
+				return nil
+			}
+			isFirstDigest := func(v ssa.Value) bool {
+				if v == nil {
+					return false
+				}
+				if cv, ok := v.(*ssa.Call); ok && ssa.CallInstruction(cv) == first {
+					return true
+				}
+				if u, ok := v.(*ssa.UnOp); ok && u.Op.String() == "*" {
+					return holdsFirst(u.X)
+				}
+				return false
+			}
+			bh := &bytesEval{p: c.P, fn: h}
+			var hSecond ssa.CallInstruction
+			for _, s := range c.callsNamed(h, fnSha256) {
+				segs := bh.bytesAt(c.P.Describe(s).Args[0], s)
+				if len(segs) == 2 && segs[0].K == "param" && segs[0].N == 32 && isFirstDigest(argOf(segs[0].V)) && segs[1].K == "le32" {
+					if cv := argOf(segs[1].V); cv != nil && isCounter(cv) {
+						hSecond = s
+					}
+				}
+			}
+			if hSecond == nil {
+				continue
+			}
+			okLE, secondBytes = true, hSecond
+			for _, p := range c.callsNamed(h, "secp256k1.ParsePubKey") {
+				segs := bh.bytesAt(c.P.Describe(p).Args[0], p)
+				if len(segs) == 2 && segs[0].K == "const" && segs[0].S == "\x02" && segs[1].K == "digest" && segs[1].Call == hSecond {
+					// the parsed candidate is what the helper hands back
+					for _, r := range Returns(h) {
+						if len(r.Results) > 0 {
+							if ex, ok := r.Results[0].(*ssa.Extract); ok && ex.Tuple == p.Value() {
+								helperPrefix = true
+							} else if r.Results[0] == p.Value() {
+								helperPrefix = true
+							}
+						}
+					}
+				}
+			}
+		}
+	}
 	R.Check(rule, fk, "counter encoded little-endian in 4 bytes", c.P.Pos(f.Pos()), okLE, "the counter is appended as a 4-byte little-endian value", "no binary.LittleEndian.PutUint32 into a 4-byte buffer / AppendUint32 of the loop counter")
 	for _, s := range sums {
 		if s == first {
@@ -184,6 +244,7 @@ func (c *Ctx) ruleHashToCurveCensus(rule string) {
 			}
 		}
 	}
+	okPrefix = okPrefix || helperPrefix
 	R.Check(rule, fk, "candidate = 0x02 || second digest, parsed as a point", c.P.Pos(f.Pos()), okPrefix, "the candidate point is the compressed encoding 02 || digest", "")
 	okBound := false
 	for _, e := range o.AllEdges() {
